@@ -401,6 +401,13 @@ def _mod8(e, r, pname):
         return _mod8(e[1], r, pname)          # `.0` of a checked operation's (value, overflowed) pair
     if k == 'bin':
         op = e[1].replace("WithOverflow", "").replace("Unchecked", "")
+        if op == 'Sub':
+            # next_multiple_of(x, 8) - x is exactly the distance to the next multiple of 8: (8 - x % 8) % 8
+            up = ir.peel(e[2], casts=True)
+            if up[0] == 'call' and up[1].split("::")[-1] == 'next_multiple_of' and len(up[2]) == 2 and ir.const_value(ir.peel(up[2][1], casts=True)) == 8 \
+                    and ir.peel(up[2][0], casts=True) == ir.peel(e[3], casts=True):
+                x = _mod8(up[2][0], r, pname)
+                return ('val', (-x[1]) % 8) if x is not None else None
         a, b = _mod8(e[2], r, pname), _mod8(e[3], r, pname)
         if a is None or b is None:
             return None
@@ -426,6 +433,8 @@ def _mod8(e, r, pname):
             return ('res', v % 8)
         if short in ('from', 'into') and len(args) == 1:
             return args[0]
+        if short == 'next_multiple_of' and len(args) == 2 and args[1][0] == 'val' and args[1][1] > 0 and args[1][1] % 8 == 0:
+            return ('res', 0)
     return None
 
 
